@@ -3,6 +3,9 @@ import TenpyModel.C02.P2_Charges
 import TenpyModel.C02.P2_Concat
 import TenpyModel.C02.P2_Trace
 import TenpyModel.C02.P2_Tensordot2
+import TenpyModel.C02.P2_Tensordot3
+import TenpyModel.C02.P2_History
+import TenpyModel.C02.P2_History2
 /-!
 # C02 — Props2: `WF` (= `Array.test_sanity()` + truthful `_qdata_sorted` + pairwise distinct rows) is preserved by
 the operations that change legs (leg-level operations lifted to tensors), by `concatenate`, `trace`, the
@@ -61,7 +64,14 @@ index; blocks are re-inserted one by one, so the flag is only kept for an array 
 `hL`, `hLm`: the new leg passes its `test_sanity` and has the same `chinfo`. -/
 theorem C02_WF_addLeg (a : ArrS) (leg : LegS) (i axis : Int) (nz : List Bool) (b : ArrS) (h : a.WF)
     (hL : leg.ok = true) (hLm : leg.leg.mods = a.mods) (hb : a.addLeg leg i axis nz = some b) : b.WF := by
-  rw [WF_iff] at *; exact WFP_addLeg h hL hLm hb
+  rw [WF_iff] at *; exact (WFP_addLeg h hL hLm hb).1
+
+/-- documented qtotal of `add_leg`: the charge of the chosen index of the new leg is added -/
+theorem C02_qtotal_addLeg (a : ArrS) (leg : LegS) (i axis : Int) (nz : List Bool) (b : ArrS) (qi w : Nat) (h : a.WF)
+    (hL : leg.ok = true) (hLm : leg.leg.mods = a.mods) (hqi : leg.leg.getQindex i = some (qi, w))
+    (hb : a.addLeg leg i axis nz = some b) :
+    b.qtotal = makeValid a.mods (cadd a.qtotal (leg.leg.getCharge qi)) := by
+  rw [WF_iff] at h; exact (WFP_addLeg h hL hLm hb).2 qi w hqi
 
 example : (exA.addLeg (.plain (Leg.fromQflat [1] [[0], [2]] 1)) 1 1 [true, true]).map
     (fun b => (decide b.WF, b.qtotal, b.qdata, b.sorted)) = some (true, [2], [[1, 1, 1], [0, 1, 0]], false) := by decide
@@ -165,6 +175,15 @@ theorem C02_WF_concatenate (arrs : List ArrS) (axis : Int) (b : ArrS) (h : ∀ a
   rw [WF_iff]
   exact WFP_concatenate (fun a ha => (WF_iff a).mp (h a ha)) hmods hb
 
+theorem C02_qtotal_concatenate (a0 : ArrS) (rest : List ArrS) (axis : Int) (b : ArrS)
+    (hb : concatenate (a0 :: rest) axis = some b) : b.qtotal = a0.qtotal := by
+  unfold concatenate at hb
+  simp only at hb
+  repeat' (split at hb)
+  all_goals first
+    | (cases hb; done)
+    | (simp only [Option.some.injEq] at hb; rw [← hb])
+
 example : (concatenate [exA, exA.isortQdata] 0).map (fun b => (decide b.WF, b.qdata, b.sorted, (b.legAt 0).charges)) =
     some (true, [[1, 1], [0, 0], [2, 0], [3, 1]], false, [[0], [1], [0], [1]]) := by decide
 
@@ -216,6 +235,19 @@ theorem C02_qtotal_tensordot_axes (cy : Bool) (a b c : ArrS) (axes : Nat ⊕ (Li
   obtain ⟨a', b', n, _, _, hm, hqa, hqb, hstd⟩ := tensordot_unpack ha hb h
   rw [C02_qtotal_tensordot a' b' c n hstd, hm, hqa, hqb]
 
+/-- no spurious blocks: every row of the result is `ra[:cut] ++ rb[n:]` for stored rows `ra` of `a` and `rb` of `b`
+whose contracted block indices coincide (the F-stride keys compared by `_iter_common_sorted` are injective on block
+index tuples in range, and contractible legs have the same numbers of blocks) -/
+theorem C02_tensordot_rows_pairs (a b c : ArrS) (n : Nat) (ha : a.WF) (hb : b.WF)
+    (h : tensordotStd a b n = some (some c)) :
+    ∀ x ∈ c.qdata, ∃ ra ∈ a.qdata, ∃ rb ∈ b.qdata,
+      ra.drop (a.rank - n) = rb.take n ∧ x = ra.take (a.rank - n) ++ rb.drop n := by
+  rw [WF_iff] at *; exact tensordotStd_rows_pairs ha hb h
+
+example : (tensordotStd exA exA 1).map (fun oc => oc.map (fun c => (c.qdata, c.qdata.all (fun x =>
+    exA.qdata.any (fun ra => exA.qdata.any (fun rb => ra.drop 1 == rb.take 1 && x == ra.take 1 ++ rb.drop 1)))))) =
+    some (some ([[0, 0], [1, 1]], true)) := by decide +kernel
+
 /-- the example of `C02_itranspose_flag_counterexample`-style data: two blocks each, worker branch, unsorted `a` -/
 example : (tensordot false exA exA (.inr ([1], [0]))).map (fun oc => oc.map (fun c => (decide c.WF, c.qdata, c.sorted, c.qtotal == [0]))) =
     some (some (true, [[0, 0], [1, 1]], true, true)) := by decide +kernel
@@ -226,3 +258,164 @@ example : (tensordotStd (exA.ipurgeZeros [true, false]) (exA.ipurgeZeros [true, 
     (fun oc => oc.map (fun c => (decide c.WF, c.qdata, c.sorted))) = some (some (true, [[1, 1]], true)) := by decide
 example : (tensordotStd (exA.ipurgeZeros [true, false]) (exA.ipurgeZeros [false, true]) 1).map
     (fun oc => oc.map (fun c => (decide c.WF, c.qdata, c.sorted))) = some (some (true, [], true)) := by decide
+
+/-! ## 4. `combine_legs`, `sort_legcharge` (full statements; `C02_combine_rows_sorted_partial` covered the order only) -/
+
+/-- pipes made by `LegPipe.__init__` from sane legs over one `chinfo` are valid array legs: the outgoing leg passes
+`test_sanity` and the pipe satisfies the invariant `Pipe.ok` that `split_legs` relies on (fusion rule of every row of
+`q_map`, distinct incoming combinations, `q_map_slices` partition) — from the C06 theorems. -/
+theorem C02_pipe_init_ok (legs : List Leg) (hne : legs ≠ []) (M : List Nat) (hM : ∀ m ∈ M, 1 ≤ m)
+    (hl : ∀ l ∈ legs, l.sane = true ∧ l.mods = M) (qconj : Int) (hq : qconj = 1 ∨ qconj = -1) (sort bunch : Bool) :
+    (LegS.pipe (Pipe.init legs qconj sort bunch)).ok = true ∧ (Pipe.init legs qconj sort bunch).leg.mods = M :=
+  init_LegS_ok legs hne M hM hl qconj hq sort bunch
+
+example : (LegS.pipe (Pipe.init [exA.legAt 0, exA.legAt 1] 1 true true)).ok = true := by decide
+
+/-- `combine_legs` with given pipes (both the transposition branch and the in-place order): every row is mapped
+through `q_map`; the block of the pipe carries the fused charge of the combined blocks, so the charge rule holds with
+the same `qtotal`; one block: stored as is (`stored_blocks == 1` branch); otherwise lexsort + first row of every run
+of equal rows: strictly sorted, so the rows are distinct and `_qdata_sorted = True` is truthful.
+`hgood`: each pipe is the pipe of its group of legs (`GoodPipe`: its incoming legs are those legs, it is a valid
+array leg over the same `chinfo`, `_map_incoming_qind` addresses the right row of `q_map`). -/
+theorem C02_WF_combineWithPipes (a : ArrS) (groups : List (List Nat)) (newAxes : Option (List Int))
+    (pipes : List Pipe) (b : ArrS) (h : a.WF) (hgood : ∀ x ∈ groups.zip pipes, GoodPipe a x.1 x.2)
+    (hb : a.combineWithPipes groups newAxes pipes = some b) : b.WF := by
+  rw [WF_iff] at *; exact (WFP_combineWithPipes h hgood hb).1
+
+/-- `combine_legs(groups, new_axes, qconj)` with the pipes made by `make_pipe`: nothing but `WF` of the operand
+(and directions `±1`) is needed -/
+theorem C02_WF_combineLegs (a : ArrS) (groups : List (List Nat)) (newAxes : Option (List Int))
+    (qconjs : List (Option Int)) (b : ArrS) (h : a.WF) (hqc : ∀ v, some v ∈ qconjs → v = 1 ∨ v = -1)
+    (hb : a.combineLegs groups newAxes qconjs = some b) : b.WF := by
+  rw [WF_iff] at *; exact (WFP_combineLegs h hqc hb).1
+
+/-- `combine_legs` keeps the total charge -/
+theorem C02_qtotal_combineLegs (a : ArrS) (groups : List (List Nat)) (newAxes : Option (List Int))
+    (qconjs : List (Option Int)) (b : ArrS) (h : a.WF) (hqc : ∀ v, some v ∈ qconjs → v = 1 ∨ v = -1)
+    (hb : a.combineLegs groups newAxes qconjs = some b) : b.qtotal = a.qtotal := by
+  rw [WF_iff] at *; exact (WFP_combineLegs h hqc hb).2
+
+example : (exA.combineLegs [[0, 1]] none [none]).map (fun b => (decide b.WF, b.qdata, b.sorted)) =
+    some (true, [[1]], true) := by decide +kernel
+/-- four blocks, transposition branch (`transp = [1, 3, 0, 2]`), explicit new axis; the rows had to be re-sorted.
+(Examples with two or more groups cannot be `decide`d: `List.mergeSort` on ≥ 2 elements does not reduce in the kernel;
+such cases are exercised by the correspondence run.) -/
+example : ((outer exA exA).bind (fun c => c.combineLegs [[3, 0]] (some [1]) [none])).map
+    (fun b => (decide b.WF, b.qdata, b.sorted)) =
+    some (true, [[1, 0, 0], [0, 1, 0], [1, 1, 1], [0, 2, 1]], true) := by decide +kernel
+
+/-- `sort_legcharge(sort, bunch)`: one-leg pipes with the requested flags, rows mapped through `perm_qind` /
+bunching (rows that fall together are merged), legs converted back to `LegCharge`s -/
+theorem C02_WF_sortLegcharge (a : ArrS) (sort bunch : List Bool) (b : ArrS) (h : a.WF)
+    (hb : a.sortLegcharge sort bunch = some b) : b.WF := by
+  rw [WF_iff] at *; exact (WFP_sortLegcharge h hb).1
+
+theorem C02_qtotal_sortLegcharge (a : ArrS) (sort bunch : List Bool) (b : ArrS) (h : a.WF)
+    (hb : a.sortLegcharge sort bunch = some b) : b.qtotal = a.qtotal := by
+  rw [WF_iff] at *; exact (WFP_sortLegcharge h hb).2
+
+example : ((exA.flipLeg 0).bind (fun a => a.sortLegcharge [true, false] [true, false])).map
+    (fun b => (decide b.WF, b.qdata, b.sorted, (b.legAt 0).charges == [[-1], [0]], (b.legAt 0).sorted)) =
+    some (true, [[1, 0], [0, 1]], true, true, true) := by decide +kernel
+
+/-- `split_legs(axes)`, all four branches (nothing to split / no blocks / one block and one row in every `q_map` /
+general): a stored block with pipe block `I` is replaced by one block for every row of `q_map` in the sector of `I`;
+each carries the charge of `I` (fusion rule kept in `Pipe.ok`), distinct `(block, row)` pairs give distinct rows
+(the incoming columns of `q_map` are pairwise distinct), the flag is reset in the general branch.
+`hsecs`: every outgoing block of a pipe has at least one incoming combination (`q_map_slices` strictly increasing —
+what `LegPipe.__init__` produces, `C06_qmap_slices`; it is not part of `test_sanity`, and the fast branch
+`stored_blocks == 1` with one-row `q_map`s reads row 0 without looking at the block index). -/
+theorem C02_WF_splitLegs (a : ArrS) (axes : Option (List Int)) (b : ArrS) (h : a.WF)
+    (hsecs : ∀ p, LegS.pipe p ∈ a.legs → ∀ I, I < p.leg.blockNumber →
+      p.qMapSlices.getD I 0 < p.qMapSlices.getD (I + 1) 0)
+    (hb : a.splitLegs axes = some b) : b.WF := by
+  rw [WF_iff] at *; exact WFP_splitLegs h hsecs hb
+
+/-- the hypothesis `hsecs` holds for every pipe made by `LegPipe.__init__` (C06: `q_map_slices` partitions the rows
+into non-empty sectors); `conj()` and `outer_conj()` keep `q_map_slices` and the number of blocks. -/
+theorem C02_pipe_init_sectors (legs : List Leg) (qconj : Int) (sort bunch : Bool) :
+    let p := Pipe.init legs qconj sort bunch
+    (∀ I, I < p.leg.blockNumber → p.qMapSlices.getD I 0 < p.qMapSlices.getD (I + 1) 0) ∧
+    p.conj.qMapSlices = p.qMapSlices ∧ p.conj.leg.blockNumber = p.leg.blockNumber ∧
+    p.outerConj.qMapSlices = p.qMapSlices ∧ p.outerConj.leg.blockNumber = p.leg.blockNumber := by
+  intro p
+  refine ⟨(Pipe.slicesOK legs qconj sort bunch).nonempty, rfl, rfl, rfl, ?_⟩
+  simp [Pipe.outerConj, Leg.blockNumber]
+
+theorem C02_qtotal_splitLegs (a : ArrS) (axes : Option (List Int)) (b : ArrS) (hb : a.splitLegs axes = some b) :
+    b.qtotal = a.qtotal := by
+  unfold ArrS.splitLegs at hb
+  simp only at hb
+  repeat' (split at hb)
+  all_goals first
+    | (cases hb; done)
+    | (simp only [Option.some.injEq] at hb; rw [← hb])
+
+example : ((exA.combineLegs [[0, 1]] none [none]).bind (fun c => c.splitLegs none)).map
+    (fun b => (decide b.WF, b.qdata, b.sorted, b.legs.length)) = some (true, [[0, 0], [1, 1]], false, 2) := by
+  decide +kernel
+/-- combine then split: the four blocks come back together with the two other blocks of the same sectors -/
+example : (((outer exA exA).bind (fun c => c.combineLegs [[3, 0]] (some [1]) [none])).bind (fun c => c.splitLegs (some [1]))).map
+    (fun b => (decide b.WF, b.qdata.length, b.sorted, b.legs.length)) = some (true, 6, false, 4) := by decide +kernel
+example : ((outer exA exA).bind (fun c => c.combineLegs [[3, 0]] (some [1]) [none])).map pipesNonemptyB = some true := by
+  decide +kernel
+
+/-- `permute(perm, axis)`: the blocks are cut along the new (bunched) blocks of the permuted leg; rows are collected in
+dict order, flag reset. `hshape`: the leg's `slices` are non-decreasing (every constructor guarantees it, `test_sanity`
+does not check it); `hperm`: a permutation of the indices. -/
+theorem C02_WF_permute (a : ArrS) (perm : List Nat) (axis : Int) (k : Nat) (b : ArrS) (h : a.WF)
+    (hk : a.legIndex axis = some k) (hshape : (a.legAt k).Shape)
+    (hperm : perm.Perm (List.range (a.legAt k).indLen)) (hb : a.permute perm axis = some b) : b.WF := by
+  rw [WF_iff] at *; exact WFP_permute h hk hshape hperm hb
+
+example : permuteOk exA [1, 0] 0 = true ∧ (exA.permute [1, 0] 0).map (fun b => (decide b.WF, b.qdata, b.sorted)) =
+    some (true, [[1, 0], [0, 1]], false) := by decide
+
+/-- `drop_charge(charge=None)`: one trivial block per leg over the empty `chinfo` -/
+theorem C02_WF_dropChargeAll (a : ArrS) (nz : List Bool) (h : a.WF) : (a.dropChargeAll nz).WF := by
+  rw [WF_iff] at *; exact WFP_dropChargeAll h nz
+
+example : (fun b => (decide b.WF, b.qdata, b.sorted, b.mods == [])) (exA.dropChargeAll [false, true]) =
+    (true, [[0, 0]], false, true) := by decide
+
+/-! ## 5. histories over all operation kinds proved (17 + 16) -/
+
+/-- every finite history of the modelled public operations — the 17 kinds of `C02_history` and flip of a leg,
+`gauge_total_charge`, `add_leg`, `extend`, `iproject`, `drop_charge`, `change_charge`, `add_charge`, `concatenate`,
+`trace`, `tensordot` (both kernels, any axes), `combine_legs`, `sort_legcharge`, `split_legs`, `drop_charge(None)`,
+`permute` — keeps every live tensor well-formed; a raising call (or one whose argument contract fails: `step2`)
+leaves the environment unchanged -/
+theorem C02_history2 (h : List Op2) (env : Env) (hw : EnvWF env) : EnvWF (run2 h env) := run2_WF h env hw
+
+/-- … at every intermediate step -/
+theorem C02_history2_every_step (h : List Op2) (env : Env) (hw : EnvWF env) (k : Nat) :
+    EnvWF (run2 (h.take k) env) := run2_WF (h.take k) env hw
+
+example :
+    let h := [Op2.base (.copy 0), .flipLeg 1 0, .tensordot false 0 1 (.inr ([1], [0])), .combineLegs 2 [[0, 1]] none [none],
+              .sortLegcharge 1 [true, false] [true, false], .iproject 0 [[true, false]] [1], .concatenate [0, 0] 0,
+              .gauge 5 0 (some [2]) (some (-1)), .trace 0 0 1, .changeCharge 6 0 3, .base (.outer 0 6),
+              .splitLegs 3 none, .permute 1 [1, 0] 0, .dropChargeAll 4 [true, true]]
+    (run2 h [exA]).length = 12 ∧ (run2 h [exA]).all (fun a => decide a.WF) = true := by
+  decide +kernel
+
+/-- the same with a two-part invariant — every live tensor is `WF` **and** all its pipes have non-empty sectors
+(`EnvPN`; every pipe made by `combine_legs` / `sort_legcharge` has them, all 33 operation kinds keep them) — so that
+`split_legs` needs no run-time check (`step3`; the only additional contract: a pipe passed to `add_leg` from outside
+has non-empty sectors). At every intermediate step. -/
+theorem C02_history3 (h : List Op2) (env : Env) (hw : EnvWF env) (hp : EnvPN env) (k : Nat) :
+    EnvWF (run3 (h.take k) env) ∧ EnvPN (run3 (h.take k) env) := run3_inv (h.take k) env hw hp
+
+example : EnvPN [exA] := by
+  intro a ha
+  simp only [List.mem_singleton] at ha
+  subst ha
+  intro l hl
+  simp only [exA, List.mem_cons, List.not_mem_nil, or_false] at hl
+  rcases hl with rfl | rfl <;> trivial
+
+example :
+    let h := [Op2.base (.outer 0 0), .combineLegs 1 [[3, 0]] (some [1]) [none], .base (.conj 2), .flipLeg 3 1,
+              .splitLegs 3 (some [1]), .splitLegs 2 none, .tensordot true 5 4 (.inr ([0, 1], [0, 1]))]
+    (run3 h [exA]).length = 7 ∧ (run3 h [exA]).all (fun a => decide a.WF && pipesNonemptyB a) = true := by
+  decide +kernel
